@@ -67,7 +67,7 @@ def gen(rng):
         for _ in range(rng.randrange(0, 3) if rng.random() < .4 and not any('<mix xmlns=' in x for x in parts) else 0): parts.append(rng.choice(['<t:box><box>v</box></t:box>', '<t:box k="1"><box>w</box></t:box>']))
         parts.append('<t:end>e</t:end>')
         if rng.random() < .4: parts.append('<u>plain</u>')        # a required particle after the optional ones: data truncated before an optional particle is incomplete
-        w = rng.choice(['', ' w="1.5"', ' w="INF"', ' w="1e3"']) + rng.choice(['', '', ' gaps="P1D PT2H"', ' gaps="P1Y"']) + rng.choice([' ver="2"', ' ver="02"'])       # an attribute with a fixed value, always present (an absent one is filled in by decoding), in two lexical forms
+        w = rng.choice(['', ' w="1.5"', ' w="INF"', ' w="1e3"']) + rng.choice(['', '', ' gaps="P1D PT2H"', ' gaps="P1Y"', ' gaps=""', ' gaps=" "']) + rng.choice([' ver="2"', ' ver="02"'])       # an attribute with a fixed value, always present (an absent one is filled in by decoding), in two lexical forms
         items.append(f'<t:item id="i{i}"{w}>' + ''.join(parts) + '</t:item>')
     return '<t:r xmlns:t="urn:t">' + ''.join(items) + '</t:r>'
 
